@@ -19,7 +19,7 @@ for d in sorted(glob.glob(os.path.join(VERIF, 'seeded', '*', 'patch.diff'))):
     subprocess.run(['patch', '-p1', '-s', '-i', d], cwd=S, check=True)
     t0 = time.time()
     env = dict(os.environ, PYVC_REPO=S)
-    p = subprocess.run(['python3-vt', os.path.join(VERIF, 'pyvc', 'check.py'), prop, '--tier', 'quick'], cwd=VERIF, env=env, capture_output=True, text=True, timeout=1800)
+    p = subprocess.run(['python3-vt', os.path.join(VERIF, 'pyvc', 'check.py'), prop, '--tier', 'quick', '--evidence', os.path.join(S, 'evidence.json')], cwd=VERIF, env=env, capture_output=True, text=True, timeout=1800)
     shutil.rmtree(S, ignore_errors=True)
     lines = p.stdout.splitlines()
     out[sid] = dict(property=prop, exit=p.returncode, seconds=round(time.time() - t0, 1),
